@@ -76,6 +76,9 @@ pub fn menu(s: &Structure) -> Vec<Op> {
     v.push(stake(P::U(0), MintTo::Invalid, None, false, Funds::Native, vec![]));
     v.push(stake(P::U(0), MintTo::Multi, None, false, Funds::Native, vec![]));
     v.push(stake(P::U(0), MintTo::None, None, false, Funds::Other, vec![]));
+    // a second coin next to the expected one must be refused (it would stay in the contract unaccounted)
+    v.push(stake(P::U(0), MintTo::None, None, false, Funds::NativeAndLst, vec![]));
+    v.push(stake(P::U(0), MintTo::None, None, false, Funds::NativeAndOther, vec![]));
     v.push(stake(P::U(0), MintTo::None, None, false, Funds::None, vec![]));
     v.push(stake(P::U(0), MintTo::None, None, false, Funds::Native, vec![1]));
     v.push(stake(P::U(0), MintTo::Native, None, false, Funds::Native, vec![0, 1]));
@@ -95,6 +98,7 @@ pub fn menu(s: &Structure) -> Vec<Op> {
         v.push(Op::Unstake { sender: P::U(u), funds: Funds::Lst });
     }
     v.push(Op::Unstake { sender: P::U(0), funds: Funds::Native });
+    v.push(Op::Unstake { sender: P::U(0), funds: Funds::LstAndNative });
     v.push(Op::Unstake { sender: P::C32, funds: Funds::Lst });
     v.push(Op::Submit { sender: P::U(1) });
     v.push(Op::Submit { sender: P::Contract });
@@ -366,7 +370,7 @@ pub fn cases(suite: &str, tier: &str, seed: u64, props: &BTreeSet<String>) -> Ve
                 let cfg = CfgSpec { stopped: true, ..base };
                 for s in scen::core_structures(&cfg) {
                     for op in menu(&s) {
-                        if matches!(op, Op::Stake { .. } | Op::Unstake { .. } | Op::Submit { .. } | Op::Withdraw { .. } | Op::Rewards { .. } | Op::ReceiveUnstaked { .. } | Op::Breaker { .. } | Op::Resume { .. }) {
+                        if matches!(op, Op::Stake { .. } | Op::Unstake { .. } | Op::Submit { .. } | Op::Withdraw { .. } | Op::Rewards { .. } | Op::ReceiveUnstaked { .. } | Op::Breaker { .. } | Op::Resume { .. } | Op::Ibc { .. } | Op::StrayCallback { .. } | Op::Recover { .. }) {
                             out.push(step_case(s.clone(), op, env));
                         }
                     }
